@@ -407,7 +407,12 @@ def get_trace(b, q, unwindset, prop):
     # no --slice-formula here: slicing drops the nondet draws the property does not depend on, and the replay stream must
     # contain every draw in program order
     cmd = [c for c in cbmc_cmd(b, q, unwindset, extra=['--property', prop, '--trace']) if c != '--slice-formula']
-    r = run(cmd, timeout=q.timeout, mem_gb=max(q.mem_gb, 8))
+    # the unsliced formula is larger than the one that was decided: generous address-space cap, scheduled through the memory budget
+    gb = BUDGET.acquire(min(2 * q.mem_gb, BUDGET.total))
+    try:
+        r = run(cmd, timeout=max(q.timeout, 900), mem_gb=min(max(5 * q.mem_gb, 16), BUDGET.total))
+    finally:
+        BUDGET.release(gb)
     try: data = json.loads(r['out'])
     except Exception: return None
     for item in data:
